@@ -227,6 +227,11 @@ class Data:
     def _gen_nn(self, t, key):
         if is_list_type(t):
             n = mix(key, "len") % 4
+            item = t.of_type.of_type if is_non_null_type(t.of_type) else t.of_type
+            if is_leaf_type(item) and mix(key, "long") % 8 == 0:
+                # now and then a long list of leaves: two-digit indices, a tail well beyond any
+                # initialCount, many items in flight at once
+                n = 11 + mix(key, "long2") % 3
             return [self._gen(t.of_type, key + (i,)) for i in range(n)]
         name = t.name
         h = mix(key, "v")
